@@ -35,7 +35,13 @@ os._exit = os_exit
 
 new_globals = globals()
 new_globals["__file__"] = pathname
-sys.path.insert(0, os.path.dirname(pathname))
+# "python -m uftrace" starts with the current directory as sys.path[0] where a
+# normal run of the script has the directory of the script: replace it, so that
+# modules in the current directory do not shadow the ones the script would import
+if sys.path and sys.path[0] in ('', os.getcwd()):
+    sys.path[0] = os.path.dirname(pathname)
+else:
+    sys.path.insert(0, os.path.dirname(pathname))
 
 try:
     # compile with the real file name so that tracebacks, warnings and inspect
